@@ -27,13 +27,18 @@ def fn_queries(tier, prop):
             Q('h_value_fn', {nm['parseObject']: 'fn_container', nm['parseArray']: 'fn_container', nm['UnEscape']: 'fn_unescape', nm['stringToNumber']: 'fn_strtonum'})
             Q('h_array_fn', {nm['parseValue']: 'fn_parseValue'})
             Q('h_object_fn', {nm['parseValue']: 'fn_parseValue', nm['UnEscape']: 'fn_unescape'})
-            if ch == 'char' and L in ((3,) if tier == 'quick' else (3, 4, 5)):
+            if ch == 'char' and L in ((4,) if tier == 'quick' else (3, 4, 5, 6)):
                 # steering twins: same harness restricted to "failed with the cursor left on a closer/comma" - vacuous (witness unreachable)
                 # on a correct tree, and on a broken one they yield counterexamples that lift to an accepted malformed document
-                for entry, stubs in (('h_array_fn', {nm['parseValue']: 'fn_parseValue'}), ('h_object_fn', {nm['parseValue']: 'fn_parseValue', nm['UnEscape']: 'fn_unescape'})):
-                    d2 = dict(d); d2['STEER'] = 1
-                    qs.append(Query('%s/%s/%s/L%d/steer' % (prop, entry, ch, L), 'C07_json_fn.cpp', entry, d2, bounds=b, stubs=stubs, cflags=['-Dprotected=public'], timeout=900,
-                                    replay=('C05_lift.cpp', {'h_array_fn': 'lift_array_fn', 'h_object_fn': 'lift_object_fn'}[entry]), vacuous_ok=True))
+                # STEER=1: callee results restricted to REAL tokens (one digit / the key k"), same assertions: any counterexample lifts to a real document;
+                # STEER=2: additionally "failed with the cursor left on a closer/comma" (vacuous on a correct tree)
+                for entry, stubs in (('h_array_fn', {nm['parseValue']: 'fn_parseValue'}), ('h_object_fn', {nm['parseValue']: 'fn_parseValue', nm['UnEscape']: 'fn_unescape'}),
+                                     ('h_top_fn', {nm['parseValue']: 'fn_parseValue'})):
+                    for st in (1, 2):
+                        if st == 2 and entry == 'h_top_fn': continue
+                        d2 = dict(d); d2['STEER'] = st
+                        qs.append(Query('%s/%s/%s/L%d/steer%d' % (prop, entry, ch, L, st), 'C07_json_fn.cpp', entry, d2, bounds=b, stubs=stubs, cflags=['-Dprotected=public'], timeout=900,
+                                        replay=('C05_lift.cpp', {'h_array_fn': 'lift_array_fn', 'h_object_fn': 'lift_object_fn', 'h_top_fn': 'lift_top_fn'}[entry]), vacuous_ok=(st == 2)))
     return qs
 def queries(tier):
     return fn_queries(tier, 'fn')
